@@ -784,11 +784,16 @@ int __wrap_pthread_join(pthread_t th, void **ret)
 /* log-only lines for the virtual pthread objects that live inside a *named* object (no schedule point):
  *   M <tid> lock|unlock <obj>      R <tid> condwait <obj> dl=<abs|inf>      R <tid> condret <obj> to=<0|1>
  *   W <tid> cond <obj> n=<k> woke=<tid,...> */
+static void (*mutex_fn)(char, const char *, const void *);
+void vs_set_mutex_fn(void (*fn)(char, const char *, const void *)) { mutex_fn = fn; }
 static void plog(char tag, const char *what, const void *o, const char *extra)
 {
     char b[64];
-    if (logf && me && lookup(o))
+    if (logf && me && lookup(o)) {
         fprintf(logf, "%c %d %s %s%s\n", tag, me->id, what, vs_addr_name(o, b, sizeof b), extra);
+        if (mutex_fn) /* scenario hook (additive; unset everywhere but in sc_xslife): the word the mutex protects */
+            mutex_fn(tag, what, o);
+    }
 }
 static void vmutex_lock(vthread *self, pthread_mutex_t *m)
 {
